@@ -467,7 +467,13 @@ let () =
   if Array.length Sys.argv < 4 then begin prerr_endline "usage: modelrun <programs.sexp> <cases.sexp> <out>"; exit 2 end;
   let out = open_out_bin Sys.argv.(3) in
   let pr fmt = Printf.fprintf out fmt in
-  (* programs *)
+  (* MODELRUN_SHARD=k/n: replay only every n-th record (offset k); type declarations are read by all shards *)
+  let shard_k, shard_n =
+    match Sys.getenv_opt "MODELRUN_SHARD" with
+    | Some s -> (match String.split_on_char '/' s with [k; n] -> (int_of_string k, int_of_string n) | _ -> (0, 1))
+    | None -> (0, 1) in
+  (* programs: evaluated by every shard, printed by the first *)
+  let pr0 fmt = if shard_k = 0 then Printf.fprintf out fmt else Printf.ifprintf out fmt in
   read_lines Sys.argv.(1) (fun line ->
       if String.length line > 0 then
         match parse_sx line with
@@ -479,16 +485,16 @@ let () =
                let o = M.run params (yaml_of y) file in
                Hashtbl.replace programs id o;
                (match o with
-                | M.Fail -> pr "(program %s fail)\n" (q id)
+                | M.Fail -> pr0 "(program %s fail)\n" (q id)
                 | M.Response r ->
-                    pr "(program %s ok %s %s (roots%s) (failed%s))\n" (q id) (qs r.M.r_file_name) (qs r.M.r_package)
+                    pr0 "(program %s ok %s %s (roots%s) (failed%s))\n" (q id) (qs r.M.r_file_name) (qs r.M.r_package)
                       (String.concat "" (List.map (fun (n, _) -> " " ^ qs n) r.M.r_roots))
                       (String.concat "" (List.map (fun n -> " " ^ qs n) r.M.r_failed));
                     List.iter (fun (n, m) ->
-                        pr "(modelschema %s %s %s %s)\n" (q id) (qs n) (p_sattrs (M.model_schema_attrs m)) (p_atys (M.model_schema_ty m));
-                        pr "(class %s %s (tf_ok %s) (flat_ok %s) (rt_ok %s))\n" (q id) (qs n) (b01 (M.tf_ok m)) (b01 (M.flat_ok m)) (b01 (M.rt_ok m)))
+                        pr0 "(modelschema %s %s %s %s)\n" (q id) (qs n) (p_sattrs (M.model_schema_attrs m)) (p_atys (M.model_schema_ty m));
+                        pr0 "(class %s %s (tf_ok %s) (flat_ok %s) (rt_ok %s))\n" (q id) (qs n) (b01 (M.tf_ok m)) (b01 (M.flat_ok m)) (b01 (M.rt_ok m)))
                       r.M.r_roots)
-             with Parse_error e -> pr "(programerror %s %s)\n" (q id) (q e))
+             with Parse_error e -> pr0 "(programerror %s %s)\n" (q id) (q e))
         | _ -> ());
   (* cases *)
   let nmatch = ref 0 and nmis = ref 0 and nskip = ref 0 in
@@ -497,12 +503,15 @@ let () =
     pr "(mismatch %s %s (impl %s) (model %s))\n" (q id) kind impl model in
   let opt_str = function Atom "nil" -> None | x -> Some (atom x) in
   let p_opt = function None -> "nil" | Some s -> q s in
+  let recno = ref 0 in
   if Sys.argv.(2) <> "-" then
    List.iter (fun casefile -> if Sys.file_exists casefile then
     read_lines casefile (fun line ->
         if String.length line > 4 then
           let c1 = line.[1] in
-          if c1 = 't' || c1 = 's' || c1 = 'f' then
+          let is_ty = c1 = 't' && line.[2] = 'y' && line.[3] = ' ' in
+          let mine = is_ty || (incr recno; !recno mod shard_n = shard_k) in
+          if mine && (c1 = 't' || c1 = 's' || c1 = 'f') then
             try
               match parse_sx line with
               | [List [Atom "ty"; n; List body]] -> Hashtbl.replace types (int_of_string (atom n)) (objbody body)
